@@ -894,6 +894,7 @@ def check_switch(rep, ctx, res, schema, sn, eff, lms, hist, rid='R17.9'):
     f = ctx.sched.func
     if not isinstance(lms, dict):
         return
+    ctx.lm_listed = getattr(ctx, 'lm_listed', set()) | set(lms)
     for i, (lm, old, new) in enumerate(ctx.sched.rewrites):
         sibs = lm_siblings(ctx, lm)
         mine = sorted(k for k in lms if k in sibs)
@@ -934,6 +935,15 @@ def check_switches(rep, ctx, rid='R17.9'):
                   history='every shipped platform meant to be switched to %r '
                   'keeps scheduler %r' % (new, old))
         n = ctx.switch_hits.get(i, 0)
+        listed = getattr(ctx, 'lm_listed', set())
+        if n == 0 and not ({lm} | lm_siblings(ctx, lm)) & listed:
+            # a switch for a launch method no shipped platform lists (yet):
+            # dead for the shipped platforms, so nothing they resolve to can
+            # be wrong because of it
+            rep.info(rid, f, 'the scheduler switch %r -> %r for launch method '
+                     '%r concerns no shipped platform (none lists that launch '
+                     'method)' % (old, new, lm), f.loc())
+            continue
         rep.check(n > 0, rid, f, 'the scheduler switch %r -> %r for launch '
                   'method %r applies to %d shipped resource x schema configs'
                   % (old, new, lm, n), construct='switch-live:%s:%s' % (lm, old),
@@ -6382,6 +6392,8 @@ SILENT = [
     dict(name='second switch for the other name of the JSRUN class', edits=[
         (_SCB, "        impl = {\n\n            SCHEDULER_NAME_CONTINUOUS_ORDERED ",
                "        if 'JSRUN_ERF' in session.rcfg.launch_methods:\n            if name == SCHEDULER_NAME_CONTINUOUS:\n                name = SCHEDULER_NAME_CONTINUOUS_JSRUN\n\n        impl = {\n\n            SCHEDULER_NAME_CONTINUOUS_ORDERED ")]),
+    dict(name='a further switch for a launch method no shipped platform lists', edits=[
+        (_SCB, "        if 'JSRUN' in session.rcfg.launch_methods:\n            if name == SCHEDULER_NAME_CONTINUOUS:\n                name = SCHEDULER_NAME_CONTINUOUS_JSRUN\n", "        if 'JSRUN' in session.rcfg.launch_methods:\n            if name == SCHEDULER_NAME_CONTINUOUS:\n                name = SCHEDULER_NAME_CONTINUOUS_JSRUN\n        if 'CCMRUN' in session.rcfg.launch_methods:\n            if name == SCHEDULER_NAME_CONTINUOUS:\n                name = SCHEDULER_NAME_CONTINUOUS_ORDERED\n")]),
     dict(name='a platform which lists JSRUN_ERF next to JSRUN', edits=[
         ('configs/resource_llnl.json', '"JSRUN" : {}', '"JSRUN" : {},\n                                         "JSRUN_ERF" : {}')]),
     dict(name='whole-line comment and reflowed values in a resource config', edits=[
